@@ -80,6 +80,13 @@ def gen_idem_streams(chk):
         for tail in [b"(a\rb) Tj\r", b"(a\n%) Tj\n", b"(a\rb) Tj BI /W 1 ID x EI Q\r", b"/A#42 gs (\r) Tj " * 6, b"(a\r)) Tj"]:
             cases.append(("img-align", b"BI /W 1 ID " + data + b" EI " + tail))
             cases.append(("img-align", b"BI /W 1 ID x EI BI /W 1 ID " + data + b" EI " + tail))
+    # finding C16-F8: a word mixing letters and digits behind an image makes findEI fall back to the last "EI" it saw; a string or
+    # name whose re-spelling contains "EI" moves that fallback in the second pass
+    for w in [b"a1", b"T1", b"x_", b"a\x80"]:
+        for s_ in [b"<204549203c34313e20>", b"(\\105I <41> )", b"( \\105\\111 <41>)", b"/#45I <41>", b"<4549>"]:
+            cases.append(("ei-respelt", b"BI ID a EI " + w + b" " + s_ + b" Tj"))
+            cases.append(("ei-respelt", b"BI /W 1 ID a EI q " + w + b" " + s_ + b" Tj\r"))
+        cases.append(("ei-respelt", b"BI ID a EI BI ID %x EI (p\n%q) " + w + b" <204549203c34313e20> Tj"))
     n = 1800 if chk.tier == "quick" else 20000
     for i in range(n):
         k = rng.randint(1, 14)
@@ -95,6 +102,21 @@ def gen_idem_streams(chk):
             seen.add(b)
             res.append((lab, b))
     return res
+
+
+def respelt_ei(inp, out1):
+    """class of finding C16-F8: the first pass wrote an "EI" look-alike the input did not have (a re-spelt string / name), behind an inline image
+    that is followed by a word findEI's look-ahead calls implausible (letters mixed with digits / other bytes; d0 and d1 excepted)"""
+    if out1.count(b"EI") <= inp.count(b"EI"):
+        return False
+    for w in re.split(rb"[\x00\t\n\x0c\r ()<>\[\]{}/%]+", inp):
+        if w in (b"d0", b"d1") or not w:
+            continue
+        alpha = any(chr(c).isalpha() or c == 42 for c in w if c < 128)
+        other = any(not (chr(c).isalpha() or c == 42) for c in w if c < 128) or any(c >= 128 for c in w)
+        if alpha and other or any(c >= 128 or c < 32 for c in w):
+            return True
+    return False
 
 
 def part_idem(chk, drv, runner):
@@ -143,7 +165,8 @@ def part_idem(chk, drv, runner):
             chk.violation({"kind": "property-fails-on-implementation", "part": "idem", "label": lab, "input": repr(b), "input_hex": hx[i],
                            "why": "normalisation is not idempotent on content that tokenises cleanly: the second pass changes the first pass's output"
                                   + (" (inside the hypotheses of ci_normalize_idempotent: the model cannot do this)" if in_noimg or in_img else ""),
-                           "first_pass": i1[i], "second_pass": i2[i], "model": m1[i], "replay": "c16norm " + hx[i]}, signature="C16:idem:clean")
+                           "first_pass": i1[i], "second_pass": i2[i], "model": m1[i], "replay": "c16norm " + hx[i]},
+                          signature="C16:idem:" + ("respelt-ei" if respelt_ei(b, bytes.fromhex(o1[i]) if o1[i] != "-" else b"") else "clean"))
         elif not valid and not impl_idem:
             stats["damaged_not_idempotent"] = stats.get("damaged_not_idempotent", 0) + 1
             stats.setdefault("damaged_not_idempotent_example", repr(b))
